@@ -188,6 +188,12 @@ func IsCopy(c ssa.CallInstruction) bool {
 	case "bytes.Clone", "slices.Clone", "maps.Clone", "strings.Clone":
 		return len(cc.Args) == 1
 	}
+	// append([]T(nil), xs...): the copy idiom
+	if b, ok := cc.Value.(*ssa.Builtin); ok && b.Name() == "append" && len(cc.Args) == 2 {
+		if k, isC := cc.Args[0].(*ssa.Const); isC && k.Value == nil {
+			return true
+		}
+	}
 	if strings.HasSuffix(name, ").DeepCopy") || strings.HasSuffix(name, ").DeepCopyObject") {
 		return (cc.IsInvoke() && len(cc.Args) == 0) || (!cc.IsInvoke() && len(cc.Args) == 1)
 	}
